@@ -6,7 +6,16 @@
    FULL STATEMENTS (DESIGN.md C24) and what is proved of them:
      reopen_contiguous   : forall history, forall crash cut, reopen = Ok /\ the table exposes one
                            contiguous range [tail, head).
-         proved: C24_reopen_index_recovers_partial — for EVERY table state satisfying the executable
+         proved for EVERY history (of append batches, truncateHead, truncateTail, Sync and the two
+         interior points of doSync, under the guard [guarded]: every stored item <= maxFileSize, file
+         numbers < 2^16, item numbers < 2^32) and EVERY cut: C24_reopen_contiguous_index_partial —
+         checkIndex+repairIndex leave exactly the index bytes below the flush offset, whichever
+         metadata record survived.  The invariant behind it (Storage/FreezerTableInv.v, IdxInv) is
+         proved preserved by every operation: C24_index_invariant_all_histories.
+         missing for the full statement: the rest of repair() after repairIndex (head truncation
+         loop, preopen, size check) as a quantified theorem, and crash+reopen as an operation
+         INSIDE a history (histories here end with the crash).
+         state-level version: C24_reopen_index_recovers_partial — for EVERY table state satisfying the executable
          invariant [inv_b], every index cut between durable and current length, every zero-filled
          extension, either metadata record and any data files, checkIndex+repairIndex leave exactly
          the index bytes below the flush offset (so head = itemOffset + flushOffset/6 - 1).
@@ -21,7 +30,7 @@
          synced_survive is FALSE of the current code when an empty item follows an item larger than
          maxFileSize: C24_synced_survive_refuted (open known finding).
      zero_tail_detected  : C24_zero_tail_detected, FULL, with the undetectable case as its exact exception. *)
-From GV Require Import Lib.Tactics Storage.FreezerTable Storage.FreezerTableProofs.
+From GV Require Import Lib.Tactics Storage.FreezerTable Storage.FreezerTableProofs Storage.FreezerTableInv.
 Local Open Scope N_scope.
 
 (* checkIndex truncates a zero-filled tail exactly at the first zero entry, unless the last genuine
@@ -53,6 +62,27 @@ Theorem C24_reopen_index_recovers_partial : forall t c p data (cm : bool),
 Proof. exact crash_index_recovers. Qed.
 Print Assumptions C24_reopen_index_recovers_partial.
 
+(* the index invariant holds after every guarded history *)
+Theorem C24_index_invariant_all_histories : forall maxsz encode clamp t0 h,
+  maxsz < two32 -> init clamp = Ok t0 -> guarded maxsz encode t0 h ->
+  IdxInv maxsz (fst (run maxsz encode t0 h)).
+Proof. intros. apply inv_run; [assumption | eapply inv_init; eauto | assumption]. Qed.
+Print Assumptions C24_index_invariant_all_histories.
+
+(* index recovery for every guarded history, every index cut, every zero fill, either metadata record *)
+Theorem C24_reopen_contiguous_index_partial : forall maxsz encode clamp t0 h c p data (cm : bool),
+  maxsz < two32 -> init clamp = Ok t0 -> guarded maxsz encode t0 h ->
+  let t := fst (run maxsz encode t0 h) in
+  valid_cut (t_index t) c p ->
+  let m := if cm then t_mcur t else t_msyn t in
+  let u := open_repair_index (crash_file (t_index t) c p) data (Some m) in
+  fbytes (t_index u) = firstn (N.to_nat (mflush (t_mcur t))) (fbytes (t_index t))
+  /\ t_mcur u = mkMeta 2 (mvtail m) (mflush (t_mcur t))
+  /\ t_msyn u = mkMeta 2 (mvtail m) (mflush (t_mcur t))
+  /\ t_data u = data.
+Proof. exact reopen_index_recovers. Qed.
+Print Assumptions C24_reopen_contiguous_index_partial.
+
 (* "reopen = Ok for every history and cut" is false of the code before the clamp in repair():
    files at their durable lengths + the current (never fsync'ed) metadata record *)
 Theorem C24_reopen_ok_unclamped_refuted :
@@ -82,6 +112,14 @@ Theorem C24_synced_survive_refuted :
 Proof. do 2 eexists. split; [vm_compute; reflexivity|]. split; [vm_compute; reflexivity|].
   split; [vm_compute; reflexivity|]. split; [vm_compute; reflexivity|]. vm_compute. repeat split. Qed.
 Print Assumptions C24_synced_survive_refuted.
+
+(* non-vacuity of the history guard: H_vtail and H_mixed are guarded histories *)
+Example C24_guard_nonvacuous :
+  exists t0, init true = Ok t0 /\ guarded 100 raw_id t0 H_vtail /\ guarded 60 raw_id t0 H_mixed.
+Proof.
+  eexists. split; [vm_compute; reflexivity|].
+  split; vm_compute; repeat split; try reflexivity; try discriminate; repeat constructor; discriminate.
+Qed.
 
 (* non-vacuity: the invariant holds on a state with unsynced index entries (durable 36 < 66 bytes),
    unsynced data and an unsynced metadata record, and a cut strictly inside is valid *)
